@@ -157,6 +157,12 @@ def run_program(spec: dict[str, Any], col: common.Collector, *, variant: bool = 
     col.count("mon.programs_generated")
     tb_sig = trusted_base_signatures(bp.program, bp)
     knl = cp.kernel
+    col.count("mon.dependency_monitor")
+    if getattr(cp, "dep_repairs", None):
+        col.violation("C01:dependency-omitted:repaired-by-loopy-heuristic",
+                      "the kernel pytato built lacks a dependency between a writer and a "
+                      "reader of one variable; loopy's deprecated single-writer heuristic "
+                      f"added it: {cp.dep_repairs[0][:200]}", {**wit})
     col.histo("kernel_insns", str(min(len(knl.instructions), 40) // 5 * 5))
     result: dict[str, Any] = {"outputs": {}, "cp": cp, "bp": bp}
     has_dw = any(i["kind"] == "dw" for i in spec["inputs"])
